@@ -389,9 +389,9 @@ def check_handle_reset(ck, fn):
     first = min((g.pos_deep(r) for r in repl if g.pos_deep(r)), key=lambda p: (p[0] != g.entry, ), default=None)
     resets = []
     for x in ir.walk(fn.body):
-        c = match.call_named(x, ("fill", "fill_n")) if "callee" in x else None
-        if c and any(is_not_present(a) for a in kids(c)) and any(match.call_named(a, ("begin",)) and match.this_field(kids(strip_casts(a))[0]) == "handles_" for a in kids(c)):
-            resets.append(c)
+        fa = match.fill_all(x)
+        if fa and match.this_field(fa[0]) == "handles_" and is_not_present(fa[1]):
+            resets.append(x)
         c = match.call_named(x, ("assign",)) if "callee" in x else None
         if c and c.get("member_call") and match.this_field(kids(c)[0]) == "handles_" and any(is_not_present(a) for a in kids(c)):
             resets.append(c)
@@ -438,14 +438,13 @@ def check_handle_grow(ck, fn):
     upd = [y for y in ir.walk(fn.body) if match.binop(y, ("=",)) and ref_of(match.binop(y, ("=",))[1]) == mv]
     fed = set()
     roles, value_var = index_roles(fn)
-    for y in upd:
-        m = match.call_named(match.binop(y, ("=",))[2], ("max",))
-        if not m:
+    for y in list(upd) + [z for z in ir.walk(fn.body) if z["k"] == "IfStmt"]:
+        eu = match.extreme_update(y, "max")
+        if not eu or ref_of(eu[0]) != mv:
             continue
-        for a in kids(m):
-            r, v = operand_role(a, roles, value_var)
-            if r:
-                fed.add((r, v))
+        r, v = operand_role(eu[1], roles, value_var)
+        if r:
+            fed.add((r, v))
     kinds = set(r for r, _ in fed)
     if not {"value", "child"} <= kinds:
         ck.violation("HANDLE-GROW", fn.qname, "coverage", "the maximum key does not take every visited element into account (needs the hole value and all children)", fn.loc)
@@ -515,25 +514,14 @@ def check_radix_coupled(ck, tu):
                     if cnd and bucket_index(kids(strip_casts(cnd))[0]) is not None and match.same_expr(bucket_index(kids(strip_casts(cnd))[0]), idx) \
                             and g.pos(y) and g.reachable(g.pos(y), pc):
                         ok1 = True
-            # (2) mins_[idx] lowered afterwards
+            # (2) mins_[idx] lowered to the new key: if (mins_[idx] > key) mins_[idx] = key  |  mins_[idx] = std::min(mins_[idx], key)
             ok2 = False
             for y in ir.walk(fn.body):
-                b = match.binop(y, ("=",))
-                if b:
-                    p = match.index_parts(b[1])
+                eu = match.extreme_update(y, "min") if y["k"] in ("IfStmt", "BinaryOperator", "CXXOperatorCallExpr") else None
+                if eu:
+                    p = match.index_parts(eu[0])
                     if p and match.this_field(p[0]) == "mins_" and match.same_expr(p[1], idx):
-                        par = fn.parent(y)
-                        while par is not None and par["k"] != "IfStmt":
-                            par = fn.parent(par)
-                        if par is not None:
-                            cb = match.binop(kids(par)[0], (">", "<"))
-                            if cb:
-                                pl, pr = match.index_parts(cb[1]), match.index_parts(cb[2])
-                                lhs_is_min = pl and match.this_field(pl[0]) == "mins_"
-                                rhs_is_min = pr and match.this_field(pr[0]) == "mins_"
-                                key = cb[2] if lhs_is_min else cb[1]
-                                if ((lhs_is_min and cb[0] == ">") or (rhs_is_min and cb[0] == "<")) and match.same_expr(key, b[2]):
-                                    ok2 = True
+                        ok2 = True
             # (3) size accounting: ++size_ unless elements are only moved between buckets
             moving = fn.name.startswith("reorganize")
             ok3 = moving or any(match.unop(y, ("++",)) and match.this_field(match.unop(y, ("++",))[1]) == "size_" for y in ir.walk(fn.body))
@@ -635,13 +623,9 @@ def written_fields(tu, fn, depth=0, seen=None):
                 cal = tu.by_did.get(x["callee"]["did"])
                 if cal is not None:
                     out |= written_fields(tu, cal, depth + 1, seen)
-        if "callee" in x and x["callee"]["name"] in ("fill", "fill_n"):
-            for a in kids(x):
-                bb = match.call_named(a, ("begin",))
-                if bb and "callee" in strip_casts(a):
-                    f = match.this_field(kids(strip_casts(a))[0])
-                    if f:
-                        out.add(f)
+        fa = match.fill_all(x)
+        if fa and match.this_field(fa[0]):
+            out.add(match.this_field(fa[0]))
         if x["k"] == "CXXForRangeStmt":
             f = match.this_field(kids(x)[0])
             if f and any("callee" in y and y.get("member_call") and not y["callee"].get("const") for y in ir.walk(kids(x)[2])):
